@@ -37,10 +37,41 @@ def e6_stream_opened_for_this_target(ctx):
     ctx.floor("E6", "binding-key obligations (U2)", 3, n)
 
 
+def e7_consumption_is_not_decided_by_content(ctx):
+    """E7: `the server ... consumes exactly the address's own bytes`: how many bytes a request parser takes off the stream around the address is fixed
+    by the format - constants (a type byte, a two-byte line break), lengths read from length fields, or `everything that is left`. A
+    consumption whose length comes out of *scanning the bytes that follow* (a `take_while` / `position` / `find` over the buffer, a count of
+    matching bytes) eats payload whenever the payload happens to begin with bytes the scan accepts: the address is decoded correctly and the
+    bytes behind it are not the client's. Judged in the server request decoders and the address functions they use."""
+    prog = ctx.prog
+    SCANS = ("take_while", "skip_while", "position", "rposition", "find", "rfind", "count", "find_map", "split", "splitn", "trim_start_matches", "strip_prefix", "memchr")
+    roots = [b for b in prog.methods_of_trait_impls("Decoder", "decode") if b.defp.startswith("octo_squirrel_server")]
+    n = 0
+    for b0 in roots:
+        fb = prog.flat(b0.defp)
+        if not any("Address" in fb.local_ty(t["dest"][0]) and "Result<" in fb.local_ty(t["dest"][0]) for (_, c, t) in fb.calls()):
+            continue
+        for (blk, c, t) in fb.calls():
+            if c.name not in ("Buf::advance", "BytesMut::split_to", "Buf::copy_to_bytes", "BytesMut::split_off") or len(t["args"]) < 2:
+                continue
+            q = op_place(t["args"][1])
+            if q is None:
+                continue
+            n += 1
+            _, acalls, _ = fb.slice_back([q[0]])
+            scans = sorted({cc.name for (_, cc, _) in acalls if (cc.method or "") in SCANS and (cc.name.startswith(("Iterator::", "str::", "[T]::", "DoubleEndedIterator::")) or "memchr" in cc.target)})
+            ctx.ob("E7", prog.body(fb.origin[blk]).defp if prog.body(fb.origin[blk]) is not None else b0.defp, f"consumed-length-not-from-a-content-scan:{c.method}", loc(t["sp"]), not scans,
+                   "the consumed length is a constant, a length field or the remaining length" if not scans else
+                   f"the number of bytes taken off the stream here comes out of scanning the bytes themselves ({', '.join(scans[:3])}): when the payload behind the request begins "
+                   "with bytes the scan accepts they are consumed as part of the request - the address decodes correctly and the payload handed on is not what the client sent")
+    ctx.floor("E7", "variable-length consumptions in server request decoders", 3, n)
+
+
 def run(ctx):
     prog = ctx.prog
     bodies = [b for b in prog.prod_bodies() if "::_" not in b.defp]
     e6_stream_opened_for_this_target(ctx)
+    e7_consumption_is_not_decided_by_content(ctx)
     e1(ctx, prog, bodies)
     e2_e3(ctx, prog, bodies)
     # ---------------- E4 --------------------------------------------------------------------------
